@@ -835,7 +835,7 @@ def _hs_req_scenario(seed):
     return out
 
 
-def _hs_classify(trace, l):
+def _hs_classify(trace, l, mode='preempt'):
     """history class of a rejected event (stable, used as finding signature)"""
     ev = trace[l - 1] if 0 < l <= len(trace) else {}
     before = trace[:l - 1]
@@ -862,7 +862,9 @@ def _hs_classify(trace, l):
     # the two known race families between a request and the cycle that ends a run (specific: which request,
     # and what is wrong afterwards)
     running = ev.get('ev') == 'quiet' and (ev['active'] or ev['pending'] == 'start')
-    if request == 'started' and not ev.get('busy', True) and (ev.get('ev') == 'update' or running):
+    if not mode.startswith('preempt'):
+        pass                    # races need a second thread: never a family in single-threaded runs
+    elif request == 'started' and not ev.get('busy', True) and (ev.get('ev') == 'update' or running):
         sig['family'] = 'start request vs finishing run: not busy although started'
     elif request == 'stopreq' and ev.get('ev') == 'quiet' and not running:
         sig['family'] = 'stop request vs finishing run: status neither final nor stopped'
@@ -972,7 +974,7 @@ def run(chk):
         chk.impl_traces += 1
         chk.case('h%d' % i, True)
         if v is not None:
-            sig = {'module': 'HasStates', 'mode': metas[i]['mode'], **_hs_classify(traces[i], v[0])}
+            sig = {'module': 'HasStates', 'mode': metas[i]['mode'], **_hs_classify(traces[i], v[0], metas[i]['mode'])}
             chk.violation(sig, {'meta': metas[i], 'trace': traces[i], 'failed_at': v[0], 'clause': v[1]})
     chk.sample({'hasstates_trace_prefix': traces[0][:8]})
     chk.notes['hasstates_preempted_runs'] = sum(1 for m in metas if m['mode'] == 'preempt')
